@@ -30,20 +30,28 @@ func init() {
 // ---------------------------------------------------------------- backends
 
 type backend struct {
-	idx         int
-	ln          net.Listener
-	srv         *http.Server
-	inflight    int64
-	maxSeen     int64
-	entered     int64
-	gate        atomic.Value // chan struct{}
-	mu          sync.Mutex
-	aborted     map[string]bool // rids answered by abrupt close
-	abortEvents int
-	served      map[string]bool
+	idx          int
+	ln           net.Listener
+	srv          *http.Server
+	inflight     int64
+	maxSeen      int64
+	entered      int64
+	healthProbes int64
+	gate         atomic.Value // chan struct{}
+	mu           sync.Mutex
+	aborted      map[string]bool // rids answered by abrupt close
+	abortEvents  int
+	served       map[string]bool
+	active       map[string]bool // rids whose handler is running
 }
 
 func (b *backend) ServeHTTP(w http.ResponseWriter, r *http.Request) {
+	if r.URL.Path == "/verif-health" {
+		// active health-check probes: always healthy, not part of the accounting
+		atomic.AddInt64(&b.healthProbes, 1)
+		w.WriteHeader(200)
+		return
+	}
 	cur := atomic.AddInt64(&b.inflight, 1)
 	for {
 		m := atomic.LoadInt64(&b.maxSeen)
@@ -52,16 +60,22 @@ func (b *backend) ServeHTTP(w http.ResponseWriter, r *http.Request) {
 		}
 	}
 	atomic.AddInt64(&b.entered, 1)
+	mode := r.Header.Get("X-Mode")
+	rid := r.Header.Get("X-Rid")
+	b.mu.Lock()
+	b.active[rid] = true
+	b.mu.Unlock()
 	left := false
 	leave := func() {
 		if !left {
 			left = true
+			b.mu.Lock()
+			delete(b.active, rid)
+			b.mu.Unlock()
 			atomic.AddInt64(&b.inflight, -1)
 		}
 	}
 	defer leave()
-	mode := r.Header.Get("X-Mode")
-	rid := r.Header.Get("X-Rid")
 	io.Copy(io.Discard, r.Body) // lets net/http watch the connection, so that a client cancel reaches r.Context()
 	if mode != "abort-now" {
 		g := b.gate.Load().(chan struct{})
@@ -104,7 +118,7 @@ func newBackend(i int) *backend {
 	if err != nil {
 		panic(err)
 	}
-	b := &backend{idx: i, ln: ln, aborted: map[string]bool{}, served: map[string]bool{}}
+	b := &backend{idx: i, ln: ln, aborted: map[string]bool{}, served: map[string]bool{}, active: map[string]bool{}}
 	b.gate.Store(make(chan struct{}))
 	b.srv = &http.Server{Handler: b}
 	go b.srv.Serve(ln)
@@ -129,6 +143,7 @@ type setting struct {
 	TryDuration string `json:"try_duration"`
 	N           int    `json:"concurrent_requests"`
 	Delay       bool   `json:"select_window_delay"`
+	Health      bool   `json:"active_health_check,omitempty"`
 }
 
 type upstreamUnderTest struct {
@@ -144,8 +159,14 @@ func mk(st setting, bks []*backend) (*upstreamUnderTest, error) {
 		hs = append(hs, "http://"+bks[i].ln.Addr().String())
 	}
 	var b bytes.Buffer
-	fmt.Fprintf(&b, "proxy / %s {\n policy %s\n max_conns %d\n max_fails %d\n fail_timeout %s\n try_duration %s\n try_interval 5ms\n keepalive 0\n}\n",
-		strings.Join(hs, " "), st.Policy, st.MaxConns, st.MaxFails, st.FailTimeout, st.TryDuration)
+	hc := ""
+	if st.Health {
+		// the backends always answer the probe: a passing health check must not
+		// wipe failures that have not expired yet
+		hc = " health_check /verif-health\n health_check_interval 25ms\n health_check_timeout 2s\n"
+	}
+	fmt.Fprintf(&b, "proxy / %s {\n policy %s\n max_conns %d\n max_fails %d\n fail_timeout %s\n try_duration %s\n try_interval 5ms\n keepalive 0\n%s}\n",
+		strings.Join(hs, " "), st.Policy, st.MaxConns, st.MaxFails, st.FailTimeout, st.TryDuration, hc)
 	ups, err := proxy.NewStaticUpstreams(casketfile.NewDispenser("Testfile", strings.NewReader(b.String())), "")
 	if err != nil || len(ups) != 1 {
 		return nil, fmt.Errorf("NewStaticUpstreams: %v (%s)", err, b.String())
@@ -180,6 +201,7 @@ func hook(name string) {
 var hookHits int64
 
 type outcome struct {
+	rid      string
 	mode     string
 	status   int
 	err      error
@@ -304,11 +326,11 @@ func burst(c *lib.Ctx, st setting, bks []*backend, rng *lib.Rng, seq int) {
 	startGate := make(chan struct{})
 	t0 := time.Now()
 	for i := 0; i < st.N; i++ {
-		o := &outcome{mode: modes[i], done: make(chan struct{})}
+		rid := fmt.Sprintf("b%d-r%d", seq, i)
+		o := &outcome{rid: rid, mode: modes[i], done: make(chan struct{})}
 		outs[i] = o
 		ctx, cancel := context.WithCancel(context.Background())
 		o.cancel = cancel
-		rid := fmt.Sprintf("b%d-r%d", seq, i)
 		req := httptest.NewRequest("POST", fmt.Sprintf("/p/%d", i), strings.NewReader("x")).WithContext(ctx)
 		req.RemoteAddr = fmt.Sprintf("10.0.%d.%d:1234", i/250, i%250)
 		bm := modes[i]
@@ -407,7 +429,36 @@ func burst(c *lib.Ctx, st setting, bks []*backend, rng *lib.Rng, seq int) {
 		}
 	}
 	if nc > 0 && okA {
-		checkQ("B:after-client-cancels")
+		// every cancelled request must have settled on BOTH sides (the proxy call
+		// returned and the backend handler ended) before the counters are compared:
+		// the two happen in either order, and two requests in opposite transient
+		// states would otherwise cancel out in the quiescence equation
+		settled := waitUntil(func() bool {
+			for _, o := range outs {
+				if o.mode != "cancel" {
+					continue
+				}
+				select {
+				case <-o.done:
+				default:
+					return false
+				}
+				for i := 0; i < st.Hosts; i++ {
+					bks[i].mu.Lock()
+					a := bks[i].active[o.rid]
+					bks[i].mu.Unlock()
+					if a {
+						return false
+					}
+				}
+			}
+			return true
+		}, 30*time.Second)
+		if settled {
+			checkQ("B:after-client-cancels")
+		} else {
+			c.Inconclusive(fmt.Sprintf("burst %d: cancelled requests did not settle", seq))
+		}
 	}
 	// phase C: release
 	close(gate)
@@ -514,7 +565,7 @@ func downness(c *lib.Ctx, bks []*backend, rng *lib.Rng) {
 	rounds := c.Pick(12, 120)
 	for r := 0; r < rounds; r++ {
 		mf := 1 + r%3
-		st := setting{Hosts: 2, Policy: "first", MaxConns: 0, MaxFails: mf, FailTimeout: "1500ms", TryDuration: "0", N: 1}
+		st := setting{Hosts: 2, Policy: "first", MaxConns: 0, MaxFails: mf, FailTimeout: "1500ms", TryDuration: "0", N: 1, Health: r%2 == 1}
 		c.Journal("C14 downness %s", lib.JSON(st))
 		u, err := mk(st, bks)
 		if err != nil {
@@ -559,6 +610,17 @@ func downness(c *lib.Ctx, bks []*backend, rng *lib.Rng) {
 			continue
 		}
 		// now max_fails failures are recorded, all younger than time.Since(tFirst)
+		if st.Health {
+			// let several (passing) health probes happen while the failures are unexpired
+			p0 := atomic.LoadInt64(&bks[0].healthProbes)
+			waitUntil(func() bool { return atomic.LoadInt64(&bks[0].healthProbes) >= p0+3 }, 400*time.Millisecond)
+			c.Count("health_probes_between_failure_and_expiry", atomic.LoadInt64(&bks[0].healthProbes)-p0)
+			if time.Since(tFirst) < u.ft-50*time.Millisecond {
+				if f := fails(u.hosts[0]); int(f) != mf {
+					c.Violation("C14/fails-lost", fmt.Sprintf("host 0 fail count %d while %d failures are unexpired (passing health checks in between)", f, mf), st)
+				}
+			}
+		}
 		hits0 := atomic.LoadInt64(&bks[0].entered)
 		for k := 0; k < 5; k++ {
 			_, bk := send("ok", fmt.Sprintf("d%d-o%d", r, k))
